@@ -16,6 +16,7 @@ list model, every `n` (joint differentiability and the passage from partial deri
 import Xrfmv.Lemmas.Grad
 import Xrfmv.Lemmas.GradFull
 import Xrfmv.Lemmas.GradGen
+import Xrfmv.Lemmas.FwdGen
 
 namespace Xrfmv.Props.C04
 open Xrfmv.Grad
@@ -479,5 +480,26 @@ theorem gen_fgrad_eq_model (light : Bool) (P : Params ℝ) (T : Transform ℝ) (
 theorem gen_l2_weight_eq (P : Params ℝ) {d : ℝ} (hd : 0 ≤ d) :
     TensorProg.weight (Gen.GradOps.laplaceGrad (GradGen.toOps P)) d = if d < P.eps then 0 else l2Factor P d :=
   GradGen.weight_laplace P hd
+
+/-! ### the closures differentiated by autograd (regenerated `Gen.FwdOps`) -/
+
+/-- **C04 over the regenerated source, product / Lpq / sum-power kernels.**  These three routines hand a closure `forward_func` to
+`torch.autograd` (trusted).  The closure as it is written *now* (translated binding by binding into `Gen.FwdOps` on every run: the
+`cdist` with its norm or the coordinate differences, the powers, the masks `>= eps`, `clamp_min`, `where`, `exp`, the mean over
+the feature axis, the mixing constant and the outer power) evaluates, for every pair of a center and a query point in general
+position, exactly the closed-form kernel of `Model/Grad.lean` — the function whose Fréchet derivative `C04_full_holds` identifies
+with the returned gradient. -/
+theorem gen_forward_eq_model (P : Params ℝ) (hL : 0 ≤ P.L) (hq : 0 < P.q) (u v : List ℝ) :
+    (P.eps ≤ pNorm P.q (vsub v u) → FwdGen.kProd P u v = kProd P u v) ∧
+    (P.eps ≤ pNorm P.p (vsub v u) → FwdGen.kLpq P u v = kLpq P u v) ∧
+    ((∀ t ∈ vsub v u, P.eps ≤ |t|) → FwdGen.kSumPower P u v = kSumPower P u v) :=
+  ⟨FwdGen.kProd_eq P hL hq u v, FwdGen.kLpq_eq P hL u v, FwdGen.kSumPower_eq P u v⟩
+
+/-- … and a pair closer than `eps` (in the kernel's own norm) enters the differentiated sum as the constant 1: the coinciding
+center contributes exactly zero to the gradient. -/
+theorem gen_forward_masked_constant (P : Params ℝ) (hL : 0 ≤ P.L) (u v : List ℝ) :
+    (pNorm P.q (vsub v u) < P.eps → FwdGen.kProd P u v = 1) ∧
+    (pNorm P.p (vsub v u) < P.eps → FwdGen.kLpq P u v = 1) :=
+  FwdGen.masked_pair_constant P hL u v
 
 end Xrfmv.Props.C04
